@@ -788,8 +788,9 @@ def one_bit_selects(net):
     if net.op != 's':
         return True
 
-    catlist = [net.args[0][i] for i in net.op_param]
     dest = net.dests[0]
+    # a destination narrower than the index list only takes the low-order selections
+    catlist = [net.args[0][i] for i in net.op_param[:len(dest)]]
     dest <<= concat_list(catlist)
 
 
